@@ -1,6 +1,6 @@
 #!/bin/bash
-# Build the whole Coq development (full .vo build, no quick modes), offline.
-set -e
+# Build the whole Coq development (full .vo build, no quick modes), offline. A proof that does not
+# compile does not fail the setup: it is reported by the check of the property it belongs to.
 cd "$(dirname "$0")"
 mkdir -p build evidence replays
 export PYTHONPATH="/verif/harness"
@@ -8,5 +8,8 @@ export PYTHONPATH="/verif/harness"
 import vlib, sys
 ok, log = vlib.coq_make()
 print(log[-3000:])
-sys.exit(0 if ok else 1)
+base_ok, _ = vlib.coq_make(["theories/Base/Prelude.vo"])
+if not ok:
+    print("setup: some Coq files did not compile (reported by the checks that depend on them)")
+sys.exit(0 if base_ok else 1)
 PY
